@@ -32,7 +32,9 @@ var _ store.Store = &memoryStore{}
 type memoryStore struct {
 	mu sync.Mutex
 
-	// Registered balances
+	// Registered balances. Balances handed out to callers share their
+	// big.Int words with the stored values, so stored amounts are never
+	// modified in place: every change stores a freshly allocated sum.
 	balances map[store.Account]store.Balance
 
 	// Connected nodes
@@ -98,11 +100,11 @@ func (s *memoryStore) AddNodeBalance(nodeID store.NodeID, credit *big.Int) error
 	account, ok := s.accounts[nodeID]
 	if ok {
 		balance := s.balances[account]
-		balance.Credit.Add(&balance.Credit, credit)
+		balance.Credit = *new(big.Int).Add(&balance.Credit, credit)
 		s.balances[account] = balance
 	} else {
 		balance := s.trials[nodeID]
-		balance.Credit.Add(&balance.Credit, credit)
+		balance.Credit = *new(big.Int).Add(&balance.Credit, credit)
 		s.trials[nodeID] = balance
 	}
 	return nil
@@ -121,7 +123,7 @@ func (s *memoryStore) AddAccountBalance(account store.Account, credit *big.Int) 
 	defer s.mu.Unlock()
 
 	balance := s.balances[account]
-	balance.Credit.Add(&balance.Credit, credit)
+	balance.Credit = *new(big.Int).Add(&balance.Credit, credit)
 	balance.Account = account
 	s.balances[account] = balance
 	return nil
@@ -143,7 +145,7 @@ func (s *memoryStore) AddAccountNode(account store.Account, nodeID store.NodeID)
 	balance := s.balances[account]
 	s.accounts[nodeID] = account
 	trialBalance := s.trials[nodeID]
-	balance.Credit.Add(&balance.Credit, &trialBalance.Credit)
+	balance.Credit = *new(big.Int).Add(&balance.Credit, &trialBalance.Credit)
 	balance.Account = account
 	delete(s.trials, nodeID)
 	s.balances[account] = balance
